@@ -543,9 +543,25 @@ func (e *EngineFacade) GetStats() map[string]interface{} {
 	return stats
 }
 
-// GetTransactionManager returns the transaction manager
+// GetTransactionManager returns the transaction manager. Transactions begun through it obey
+// the engine's read-only mode exactly like EngineFacade.BeginTransaction.
 func (e *EngineFacade) GetTransactionManager() transaction.TransactionManager {
-	return e.txManager
+	return &guardedTxManager{Manager: e.txManager, engine: e}
+}
+
+// guardedTxManager is the transaction manager as handed out to callers of the facade: a
+// read-write begin on a read-only engine (a replica) yields a read-only transaction.
+type guardedTxManager struct {
+	*transaction.Manager
+	engine *EngineFacade
+}
+
+// BeginTransaction starts a transaction, forced read-only while the engine is read-only
+func (g *guardedTxManager) BeginTransaction(readOnly bool) (transaction.Transaction, error) {
+	if g.engine.readOnly.Load() {
+		readOnly = true
+	}
+	return g.Manager.BeginTransaction(readOnly)
 }
 
 // GetCompactionStats returns statistics about the compaction state
